@@ -42,6 +42,10 @@ fn gen_val(rng: &mut Rng, ty: Ty, null_pct: usize) -> Val {
     if ty.nullable() && rng.chance(null_pct, 100) {
         return Val::Null;
     }
+    if ty == Ty::OptF64 && rng.chance(1, 40) {
+        // Some(NaN): a non-null option holding a NaN
+        return Val::F(f64::NAN);
+    }
     match ty {
         Ty::F64 | Ty::OptF64 => {
             let base = rng.range_i(-4, 9) as f64;
@@ -391,7 +395,7 @@ fn gen_sink(rng: &mut Rng, cfg: &GenCfg, cur: &Cursor) -> Sink {
             return if cur.ty == Ty::Trk { Sink::TryPlain(Container::Vec) } else { Sink::TryPlain(c) };
         }
         return match rng.below(3) {
-            0 if cur.ty == Ty::OptF64 => Sink::OptCollect(c),
+            0 if matches!(cur.ty, Ty::OptF64 | Ty::OptI32) => Sink::OptCollect(c),
             1 => Sink::WithLen(c),
             _ => Sink::PlainVec1(c),
         };
@@ -423,7 +427,9 @@ fn gen_sink(rng: &mut Rng, cfg: &GenCfg, cur: &Cursor) -> Sink {
         2 | 3 | 4 => Sink::TrustedVec1(c),
         5 => Sink::PlainVec1(c),
         6 => Sink::WithLen(c),
-        7 if cur.ty == Ty::OptF64 => Sink::OptCollect(if c == Container::Polars { Container::Vec } else { c }),
+        7 if matches!(cur.ty, Ty::OptF64 | Ty::OptI32) => {
+            Sink::OptCollect(if c == Container::Polars { Container::Vec } else { c })
+        },
         7 => Sink::TrustedVec1(c),
         _ => Sink::Write {
             buf: *rng.pick(&[
